@@ -548,6 +548,85 @@ Proof.
   rewrite Hs3, Hp2, <- Hs1, app_assoc. reflexivity.
 Qed.
 
+Lemma bw_fill_spec b data :
+  bwf b ->
+  let '(b', k) := bw_fill b data in
+  bwf b' /\ vcap (bvec b') = vcap (bvec b) /\ k <= length data /\
+  buf_pending b' = buf_pending b ++ firstn k data /\
+  (k < length data -> vlen (bvec b') = vcap (bvec b')).
+Proof.
+  intros Hwf. unfold bw_fill.
+  set (v := bvec b).
+  set (k := Nat.min (length data) (vcap v - vlen v)).
+  destruct Hwf as [Hb Hw]. fold v in Hb, Hw.
+  destruct (Nat.eqb_spec k 0) as [E|E].
+  - rewrite E. cbn [firstn]. rewrite app_nil_r.
+    split; [split; assumption|]. split; [reflexivity|]. split; [lia|]. split; [reflexivity|].
+    intros Hlt. fold v. unfold wf in Hw. lia.
+  - assert (Hk : length (firstn k data) = k) by (rewrite firstn_length; lia).
+    assert (Hfit : vlen v + length (firstn k data) <= vcap v) by (unfold wf in Hw; lia).
+    unfold bwf, buf_pending, wf. cbn [bvec bbegin].
+    rewrite slice_fill_vcap, slice_fill_vlen by lia.
+    rewrite vinit_slice_fill_end by assumption.
+    split; [lia|]. split; [reflexivity|]. split; [lia|]. split.
+    + rewrite skipn_app, vinit_length by exact Hw.
+      replace (bbegin b - vlen v) with 0 by lia. reflexivity.
+    + intros Hlt. rewrite Hk. lia.
+Qed.
+
+Lemma bw_fill_segs_spec segs : forall b,
+  bwf b ->
+  let '(b', k) := bw_fill_segs b segs in
+  bwf b' /\ vcap (bvec b') = vcap (bvec b) /\ k <= length (concat segs) /\
+  buf_pending b' = buf_pending b ++ firstn k (concat segs).
+Proof.
+  induction segs as [|d r IH]; intros b Hwf; cbn [bw_fill_segs concat].
+  - cbn [firstn]. rewrite app_nil_r. split; [exact Hwf|]. split; [reflexivity|]. split; [cbn; lia|reflexivity].
+  - pose proof (bw_fill_spec b d Hwf) as H. destruct (bw_fill b d) as [b1 k].
+    destruct H as (Hwf1 & Hc1 & Hk1 & Hp1 & Hfull).
+    destruct (Nat.eqb_spec (vlen (bvec b1)) (vcap (bvec b1))) as [E|E].
+    + split; [exact Hwf1|]. split; [exact Hc1|]. split; [rewrite app_length; lia|].
+      rewrite Hp1. f_equal. rewrite firstn_app. replace (k - length d) with 0 by lia.
+      cbn [firstn]. rewrite app_nil_r. reflexivity.
+    + assert (Hkd : k = length d) by (destruct (Nat.lt_ge_cases k (length d)); [specialize (Hfull ltac:(lia)); contradiction|lia]).
+      specialize (IH b1 Hwf1). destruct (bw_fill_segs b1 r) as [b2 k2].
+      destruct IH as (Hwf2 & Hc2 & Hk2 & Hp2).
+      split; [exact Hwf2|]. split; [congruence|]. split; [rewrite app_length; lia|].
+      rewrite Hp2, Hp1, <- app_assoc. f_equal.
+      subst k. rewrite firstn_all. rewrite firstn_app.
+      rewrite (firstn_all2 (n := length d + k2) d) by lia.
+      replace (length d + k2 - length d) with k2 by lia. reflexivity.
+Qed.
+
+(* BufWriter::write_vectored: no panic; an Ok(k) write has accepted exactly the first k
+   bytes of the concatenated segments BEHIND what was already buffered; nothing that was
+   waiting in the buffer is overwritten, lost, duplicated or reordered. *)
+Theorem bw_write_vectored_spec ws b log segs :
+  bwf b ->
+  exists o b' log' ws',
+    bw_write_vectored ws b log segs = Ok (o, b', log', ws') /\ bwf b' /\
+    vcap (bvec b') = vcap (bvec b) /\
+    match o with
+    | OOk k => k <= length (concat segs) /\
+               sink_bytes log' ++ buf_pending b' =
+               (sink_bytes log ++ buf_pending b) ++ firstn k (concat segs)
+    | OErr _ => sink_bytes log' ++ buf_pending b' = sink_bytes log ++ buf_pending b
+    end.
+Proof.
+  intros Hwf. unfold bw_write_vectored.
+  destruct (bw_flush_if_needed_spec ws b log Hwf) as (o1 & b1 & log1 & ws1 & H1 & Hwf1 & Hc1 & Hs1).
+  rewrite H1. cbn [rbind]. destruct o1 as [k1|e1].
+  2:{ exists (OErr e1), b1, log1, ws1. fin. }
+  pose proof (bw_fill_segs_spec segs b1 Hwf1) as H2.
+  destruct (bw_fill_segs b1 segs) as [b2 k].
+  destruct H2 as (Hwf2 & Hc2 & Hk2 & Hp2).
+  destruct (bw_flush_if_needed_spec ws1 b2 log1 Hwf2) as (o3 & b3 & log3 & ws3 & H3 & Hwf3 & Hc3 & Hs3).
+  rewrite H3. cbn [rbind].
+  exists (OOk k), b3, log3, ws3. split; [reflexivity|]. split; [exact Hwf3|].
+  split; [congruence|]. split; [exact Hk2|].
+  rewrite Hs3, Hp2, <- Hs1, app_assoc. reflexivity.
+Qed.
+
 (* BufWriter::flush: nothing is lost or duplicated; Ok means the buffer is
    empty and the inner writer was flushed last; after an error the unsent
    bytes are still buffered (so that a retry sends them). *)
